@@ -1,3 +1,3 @@
 package main
 import ("fmt"; "os"; "verif/instr")
-func main(){ ov, err := instr.Generate("/repo", "/verif"); fmt.Println(ov, err); _ = os.Args }
+func main(){ ov, err := instr.Generate("/repo", "/repo", "/verif", ""); fmt.Println(ov, err); _ = os.Args }
